@@ -16,6 +16,7 @@ import (
 type replayMeta struct {
 	Obligation string   `json:"obligation"`
 	Also       []string `json:"also"` // other obligations whose failure shape this scenario exercises
+	Prefixes   []string `json:"prefixes"` // obligation-name prefixes (e.g. all safety obligations of one function)
 	Module     string   `json:"module"`
 	Pkg        string   `json:"pkg"`
 	File       string   `json:"file"`
@@ -26,6 +27,8 @@ type replayMeta struct {
 
 func findReplayTemplate(obligation string) *replayMeta {
 	metas, _ := filepath.Glob(filepath.Join(verifRoot(), "replays_src", "*", "*", "meta.json"))
+	var fallback *replayMeta
+	defer func() {}()
 	for _, m := range metas {
 		data, err := os.ReadFile(m)
 		if err != nil {
@@ -45,8 +48,15 @@ func findReplayTemplate(obligation string) *replayMeta {
 			rm.dir = filepath.Dir(m)
 			return &rm
 		}
+		for _, pf := range rm.Prefixes {
+			if strings.HasPrefix(obligation, pf) && fallback == nil {
+				c := rm
+				c.dir = filepath.Dir(m)
+				fallback = &c
+			}
+		}
 	}
-	return nil
+	return fallback
 }
 
 type replayOutcome struct {
